@@ -103,7 +103,7 @@ class Check:
         n_ob = len(self.obs)
         n_proved = sum(1 for o in self.obs if o["verdict"] == PROVED)
         n_und = sum(1 for o in self.obs if o["verdict"] == UNDECIDED)
-        ev_dir = os.path.join(VERIF, "evidence")
+        ev_dir = os.environ.get("HF_EVIDENCE_DIR") or os.path.join(VERIF, "evidence")
         os.makedirs(os.path.join(ev_dir, "replay"), exist_ok=True)
         # replay files
         replays = []
